@@ -245,7 +245,18 @@ fn fam_format<const N: usize>(ctx: &Ctx) {
         let canon = x.to_str_radix(radix);
         let ua = u::<N>(&a);
         cs.check("Uint::to_string_radix_vartime", "any", &Out::Val(canon.bytes().map(|b| b as u64).collect()), guard(|| Out::Val(ua.to_string_radix_vartime(radix).bytes().map(|b| b as u64).collect())));
-        for s in decorate(&canon) {
+        let mut decorated = decorate(&canon);
+        if i % 8 == 0 {
+            // numerals much longer than any value of the type can need: leading zeros and underscore groups carry no
+            // value, so the numeral is still well formed and must parse to the same value (never InputSize)
+            let maxd = (64 * N).div_ceil(radix.ilog2() as usize);
+            decorated.push(format!("{}{canon}", "0".repeat(2 * maxd + 9)));
+            decorated.push(format!("+{}{canon}", "0_".repeat(maxd + 5)));
+            if canon.len() >= 2 {
+                decorated.push(format!("{}{}{}", &canon[..1], "_".repeat(2 * maxd + 9), &canon[1..]));
+            }
+        }
+        for s in decorated {
             cs.group();
             judge(&mut cs, "Uint::from_str_radix_vartime", &s, radix, Some(N), None, guard(|| res_u(Uint::<N>::from_str_radix_vartime(&s, radix))));
             // the num_traits::Num route must be the same decoder (same group: also a C15 pair)
